@@ -1,4 +1,5 @@
-"""TLAPS: machine-checked proofs of the unbounded chunk arithmetic (spec/ChunkProofs.tla)."""
+"""TLAPS: machine-checked proofs of what TLC only sees on a grid: the unbounded chunk arithmetic (ChunkProofs), slice positions (IndexProofs),
+and the concurrent-load protocol for ANY number of threads (LoadsProofs, LoadsLockProofs: these EXTEND the TLC-checked Loads.tla itself)."""
 import os
 import re
 import shutil
@@ -12,7 +13,46 @@ MODULES = {
                     "Cover, SumAll, SizesInRange, NormSame, RowInChunk for ALL n, rpc >= 1"),
     "IndexProofs": ("PyIndex", ("Clamp(v, s, n)", "Count(lo, hi, s)"),
                     "ClampRange, ProgPos, ProgNeg, CountBound: every position a slice selects lies on the axis, for ALL n, start, stop, step"),
+    # proof modules that EXTEND the TLC-checked module: no definitions to compare; instead TLC evaluates the proof module's ASSUMEs on a
+    # concrete instance (the assumptions are satisfiable, and the TLC configuration is an instance of the theorem)
+    "LoadsProofs": (None, ("Loads",), "PrivateHandlesSafe: with a handle per load every read is served from the offset its own thread sought, for ANY threads and chunk counts",
+                    """---- MODULE MC_LoadsProofs ----
+EXTENDS LoadsProofs
+V3 == (1 :> "v" @@ 2 :> "v" @@ 3 :> "w")
+C3 == (1 :> 1 @@ 2 :> 2 @@ 3 :> 1)
+====
+""", """SPECIFICATION Spec
+CONSTANTS
+  Threads = {1, 2, 3}
+  VarOf <- V3
+  LockOf <- V3
+  Chunks <- C3
+  SharedHandle = FALSE
+  UseLock = {uselock}
+INVARIANT ServedIsWanted
+CHECK_DEADLOCK FALSE
+""", ("SharedHandle = FALSE", "SharedHandle = TRUE")),
+    "LoadsLockProofs": (None, ("Loads",), "LockedSafe: with the lock of its variable taken by every load, mutual exclusion per variable and reads served from the own offset, "
+                                           "for ANY threads, variables and chunk counts, shared or private handles",
+                        """---- MODULE MC_LoadsLockProofs ----
+EXTENDS LoadsLockProofs
+V3 == (1 :> "v" @@ 2 :> "v" @@ 3 :> "w")
+C3 == (1 :> 1 @@ 2 :> 2 @@ 3 :> 1)
+====
+""", """SPECIFICATION Spec
+CONSTANTS
+  Threads = {1, 2, 3}
+  VarOf <- V3
+  LockOf <- V3
+  Chunks <- C3
+  SharedHandle = TRUE
+  UseLock = {uselock}
+INVARIANT ServedIsWanted
+INVARIANT MutualExclusion
+CHECK_DEADLOCK FALSE
+""", ("UseLock = TRUE", "UseLock = FALSE")),
 }
+STDLIB = "/opt/veriftools/tlapm/lib/tlapm/stdlib"
 
 
 def _defs(path, names):
@@ -33,14 +73,36 @@ def _defs(path, names):
 
 def prove(chk, module="ChunkProofs"):
     """-> number of proof obligations discharged; the definitions proved about must be those of the TLC-checked module"""
-    ref, names, what = MODULES[module]
-    a, b = _defs(os.path.join(tlc.SPEC_DIR, ref + ".tla"), names), _defs(os.path.join(tlc.SPEC_DIR, module + ".tla"), names)
-    if a != b or len(a) != len(names):
-        raise checklib.Machinery(f"{module}.tla does not repeat the definitions of {ref}.tla verbatim: {a} vs {b}")
+    ent = MODULES[module]
+    ref, names, what = ent[0], ent[1], ent[2]
     d = tempfile.mkdtemp(prefix="tlaps_")
     try:
         shutil.copy(os.path.join(tlc.SPEC_DIR, module + ".tla"), d)
-        p = subprocess.run(["tlapm", "--cleanfp", module + ".tla"], cwd=d, stdout=subprocess.PIPE, stderr=subprocess.STDOUT, text=True, timeout=1500)
+        if ref is not None:
+            a, b = _defs(os.path.join(tlc.SPEC_DIR, ref + ".tla"), names), _defs(os.path.join(tlc.SPEC_DIR, module + ".tla"), names)
+            if a != b or len(a) != len(names):
+                raise checklib.Machinery(f"{module}.tla does not repeat the definitions of {ref}.tla verbatim: {a} vs {b}")
+        else:
+            for dep in names:
+                shutil.copy(os.path.join(tlc.SPEC_DIR, dep + ".tla"), d)
+        p = subprocess.run(["tlapm", "--cleanfp", module + ".tla"], cwd=d, stdout=subprocess.PIPE, stderr=subprocess.STDOUT, text=True, timeout=2400)
+        if ref is None and "obligations proved" in p.stdout:
+            # the ASSUMEs of the proof module evaluated by TLC on a concrete instance; with the key assumption negated TLC must object
+            mc, cfg, (good, bad) = ent[3], ent[4], ent[5]
+            for f in ("TLAPS.tla", "SequenceTheorems.tla", "NaturalsInduction.tla", "WellFoundedInduction.tla", "FunctionTheorems.tla"):
+                shutil.copy(os.path.join(STDLIB, f), d)
+            open(os.path.join(d, f"MC_{module}.tla"), "w").write(mc)
+            base = cfg.replace("{uselock}", "TRUE")
+            assert good in base
+            open(os.path.join(d, "good.cfg"), "w").write(base)
+            open(os.path.join(d, "bad.cfg"), "w").write(base.replace(good, bad))
+            rg = tlc.run(f"MC_{module}", "good", workers=2, cwd=d)
+            if not rg.no_error:
+                raise checklib.Machinery(f"the assumptions of {module}.tla do not hold on the TLC instance:\n" + rg.out[-1200:])
+            chk.tlc_stats(rg)
+            rb = tlc.run(f"MC_{module}", "bad", workers=2, cwd=d)
+            if "Assumption" not in rb.out or rb.no_error:
+                raise checklib.Machinery(f"negative control: TLC accepted an instance that contradicts an assumption of {module}.tla")
     finally:
         shutil.rmtree(d, ignore_errors=True)
     m = re.search(r"All (\d+) obligations proved", p.stdout)
